@@ -272,15 +272,23 @@ func AddSourceMembership(
 	return err
 }
 
-func prepareDropMembership(multicastIP netip.Addr) *syscall.IPMreq {
-	mreq := &syscall.IPMreq{}
-	copy(mreq.Multiaddr[:], multicastIP.AsSlice())
-
-	return mreq
+// DropMembership leaves a group that was joined on the system's default interface.
+func DropMembership(socket *sonic.Socket, multicastIP netip.Addr) error {
+	return DropMembershipOn(socket, multicastIP, nil)
 }
 
-func DropMembership(socket *sonic.Socket, multicastIP netip.Addr) error {
-	mreq := prepareDropMembership(multicastIP)
+// DropMembershipOn leaves a group that was joined on iff (nil: the system's default interface). The kernel
+// matches the request against the interface of the membership, so a group joined on a specific interface can
+// only be left by naming that interface again.
+func DropMembershipOn(
+	socket *sonic.Socket,
+	multicastIP netip.Addr,
+	iff *net.Interface,
+) error {
+	mreq, err := prepareAddMembership(multicastIP, iff)
+	if err != nil {
+		return err
+	}
 
 	return syscall.SetsockoptIPMreq(
 		socket.RawFd(),
@@ -294,9 +302,31 @@ func DropSourceMembership(
 	socket *sonic.Socket,
 	multicastIP, sourceIP netip.Addr,
 ) (err error) {
-	mreq := prepareDropMembership(multicastIP)
+	return DropSourceMembershipOn(socket, multicastIP, sourceIP, nil)
+}
+
+// DropSourceMembershipOn is DropSourceMembership for a group joined on iff.
+func DropSourceMembershipOn(
+	socket *sonic.Socket,
+	multicastIP, sourceIP netip.Addr,
+	iff *net.Interface,
+) (err error) {
+	return setSourceOption(socket, syscall.IP_DROP_SOURCE_MEMBERSHIP, multicastIP, sourceIP, iff)
+}
+
+func setSourceOption(
+	socket *sonic.Socket,
+	option int,
+	multicastIP, sourceIP netip.Addr,
+	iff *net.Interface,
+) (err error) {
+	mreq, err := prepareAddMembership(multicastIP, iff)
+	if err != nil {
+		return err
+	}
 	mreqSource := &IPMreqSource{}
 	copy(mreqSource.Multiaddr[:], mreq.Multiaddr[:])
+	copy(mreqSource.Interface[:], mreq.Interface[:])
 	copy(mreqSource.Sourceaddr[:], sourceIP.AsSlice())
 
 	/* #nosec G103 -- the use of unsafe has been audited */
@@ -304,7 +334,7 @@ func DropSourceMembership(
 		uintptr(syscall.SYS_SETSOCKOPT),
 		uintptr(socket.RawFd()),
 		uintptr(syscall.IPPROTO_IP),
-		uintptr(syscall.IP_DROP_SOURCE_MEMBERSHIP),
+		uintptr(option),
 		uintptr(unsafe.Pointer(mreqSource)),
 		uintptr(SizeofIPMreqSource),
 		0,
@@ -319,46 +349,30 @@ func BlockSource(
 	socket *sonic.Socket,
 	multicastIP, sourceIP netip.Addr,
 ) (err error) {
-	mreqSource := &IPMreqSource{}
-	copy(mreqSource.Multiaddr[:], multicastIP.AsSlice())
-	copy(mreqSource.Sourceaddr[:], sourceIP.AsSlice())
+	return BlockSourceOn(socket, multicastIP, sourceIP, nil)
+}
 
-	/* #nosec G103 -- the use of unsafe has been audited */
-	_, _, errno := syscall.Syscall6(
-		uintptr(syscall.SYS_SETSOCKOPT),
-		uintptr(socket.RawFd()),
-		uintptr(syscall.IPPROTO_IP),
-		uintptr(syscall.IP_BLOCK_SOURCE),
-		uintptr(unsafe.Pointer(mreqSource)),
-		uintptr(SizeofIPMreqSource),
-		0,
-	)
-	if errno != 0 {
-		err = errno
-	}
-	return err
+// BlockSourceOn is BlockSource for a group joined on iff.
+func BlockSourceOn(
+	socket *sonic.Socket,
+	multicastIP, sourceIP netip.Addr,
+	iff *net.Interface,
+) (err error) {
+	return setSourceOption(socket, syscall.IP_BLOCK_SOURCE, multicastIP, sourceIP, iff)
 }
 
 func UnblockSource(
 	socket *sonic.Socket,
 	multicastIP, sourceIP netip.Addr,
 ) (err error) {
-	mreqSource := &IPMreqSource{}
-	copy(mreqSource.Multiaddr[:], multicastIP.AsSlice())
-	copy(mreqSource.Sourceaddr[:], sourceIP.AsSlice())
+	return UnblockSourceOn(socket, multicastIP, sourceIP, nil)
+}
 
-	/* #nosec G103 -- the use of unsafe has been audited */
-	_, _, errno := syscall.Syscall6(
-		uintptr(syscall.SYS_SETSOCKOPT),
-		uintptr(socket.RawFd()),
-		uintptr(syscall.IPPROTO_IP),
-		uintptr(syscall.IP_UNBLOCK_SOURCE),
-		uintptr(unsafe.Pointer(mreqSource)),
-		uintptr(SizeofIPMreqSource),
-		0,
-	)
-	if errno != 0 {
-		err = errno
-	}
-	return err
+// UnblockSourceOn is UnblockSource for a group joined on iff.
+func UnblockSourceOn(
+	socket *sonic.Socket,
+	multicastIP, sourceIP netip.Addr,
+	iff *net.Interface,
+) (err error) {
+	return setSourceOption(socket, syscall.IP_UNBLOCK_SOURCE, multicastIP, sourceIP, iff)
 }
